@@ -336,7 +336,29 @@ def idw(repo, rep):
                  if isinstance(b_.op, ast.Mult) and is_norm(b_.value)]
     if scal or unguarded:
         g = unparse(scal[0][0].test).replace(" ", "") if scal else "True"
-        if g in (f"len({I})>0", f"len({I})>=1", f"0<len({I})", f"1<=len({I})", f"{I}", "True"):
+        # the guard as a threshold on the ORIGINAL number of neighbours: `c < len(I)` after k pops of I means  original > c + k
+        pops = 0
+        if scal:
+            gpos = (scal[0][0].lineno, scal[0][0].col_offset)
+            pops = sum(1 for c_ in ast.walk(masks[0]) if isinstance(c_, ast.Call) and isinstance(c_.func, ast.Attribute) and c_.func.attr == "pop"
+                       and unparse(c_.func.value) == I and (c_.lineno, c_.col_offset) < gpos)
+        thr = None
+        t_ = scal[0][0].test if scal else None
+        if t_ is None:
+            thr = 0
+        elif unparse(t_) == I:
+            thr = pops
+        elif isinstance(t_, ast.Compare) and len(t_.ops) == 1:
+            l_, r_ = t_.left, t_.comparators[0]
+            cl, cr = repo.const(fi.module, l_), repo.const(fi.module, r_)
+            is_len = lambda e: isinstance(e, ast.Call) and call_name(e) == "len" and e.args and unparse(e.args[0]) == I
+            if is_len(r_) and isinstance(cl, int) and isinstance(t_.ops[0], (ast.Lt, ast.LtE)):
+                thr = cl + pops - (1 if isinstance(t_.ops[0], ast.LtE) else 0)
+            elif is_len(l_) and isinstance(cr, int) and isinstance(t_.ops[0], (ast.Gt, ast.GtE)):
+                thr = cr + pops - (1 if isinstance(t_.ops[0], ast.GtE) else 0)
+            elif is_len(l_) and isinstance(cr, int) and isinstance(t_.ops[0], ast.NotEq) and cr == 0:
+                thr = pops
+        if thr in (0, 1):
             rep.ok("R-C14-4", f"{fi.file}:{masks[0].lineno} sel_idw", "weighted *= 1/sum(factors) when more than one term", "convex combination")
         else:
             rep.fail("R-C14-4", fi.file, fi.node.lineno, fi.qualname, f"normalisation guard '{g}'", "the weighted sum must be normalised by 1/sum(factors) whenever more than one station contributes",
